@@ -73,6 +73,7 @@ CHECKS = {
         rule=("Signature: rapid event declarations (tuples, tuple arrays, nested, fixed/dynamic arrays up to depth 4, any indexed layout) -> dig.Event.Signature/SignatureHash vs. reference canonical string and stand-alone Keccak-256; "
               "eth.Keccak vs. the stand-alone Keccak on random bytes; KnownVectors: mainnet topics (Transfer, Approval, ApprovalForAll, Swap, Seaport OrderFulfilled). "
               "Gate: one block of 1..6 logs per case (matching; same hash with 0..4 other topic counts; other hash; similar signature; one-bit-different hash; no topics) through Integration.Insert, rows per log compared with the gate. "
+              "Pipeline: generated log declaration (as drawn / selected inputs only inside struct inputs / no log or receipt field in the block list / both) from configuration JSON through validation, request plan and task over a generated chain of matching and decoy logs; table == reference projection. "
               "non-trivial = nested tuple / tuple array in the signature, or a decoy that differs only in the number of topics."),
         assumptions=["indexed inputs are static elementary types (their topic is the value)"],
         units=[
@@ -81,6 +82,7 @@ CHECKS = {
             R("TestC13_Gate", 20000, 600000),
             R("TestC13_SeveralIntegrations", 16000, 400000, shards=8),
             R("TestC13_StoredIntegrations", 4800, 120000, shards=8),
+            R("TestC13_Pipeline", 2400, 60000, shards=8),
         ],
     ),
     "C01": dict(
